@@ -85,6 +85,27 @@ def one_dataset(obs, rng, conv, kw, spec):
         return
     default = obs.call('default_grid_kind', lambda: ems.default_grid_kind)
     obs.expect(str(getattr(default, 'value', default)) == model.default_kind, 'default grid kind')
+    if conv in ('cf1d', 'cf2d') and rng.random() < 0.5:
+        # the documented explicit form: Convention(dataset, latitude=<name>, longitude=<name>) instead of autodetection
+        e = model.encoding
+        with quiet_warnings():
+            explicit = obs.call('%s(dataset, latitude=, longitude=)' % type(ems).__name__,
+                                lambda: type(ems)(ds, latitude=e['lat_name'], longitude=e['lon_name']))
+        if not isinstance(explicit, Failed):
+            obs.cls('explicit-coordinate-names')
+            face = model.kinds['face']
+            gs = obs.call('grid_size (explicit names)', lambda: dict(explicit.grid_size))
+            if not isinstance(gs, Failed):
+                obs.expect(gs.get(model.kind_token('face')) == face.size, 'grid_size with explicit coordinate names')
+            for n in sorted({0, face.size - 1, int(rng.integers(face.size)), int(rng.integers(face.size))}):
+                nat = obs.call('wind_index (explicit names)', explicit.wind_index, n)
+                if not isinstance(nat, Failed):
+                    obs.expect(_same_native(nat, model.native('face', n)), 'wind_index with explicit coordinate names is row-major over (y, x)',
+                               lambda: {'n': n, 'got': repr(nat), 'want': model.native('face', n), 'shape': face.shape}, mech='explicit-names-differ')
+                    back = obs.call('ravel_index (explicit names)', explicit.ravel_index, nat)
+                    if not isinstance(back, Failed):
+                        obs.expect(int(back) == n, 'ravel_index(wind_index(n)) == n with explicit coordinate names')
+            r = obs.raises('wind_index(out of range, explicit names)', explicit.wind_index, face.size, mech='out-of-range-linear-accepted')
     for kname, kind in model.kinds.items():
         token = model.kind_token(kname)
         size = kind.size
